@@ -8017,6 +8017,11 @@ func (t *InclusiveRangeType) Unify(
 }
 
 func (t *InclusiveRangeType) Resolve(typeArguments *TypeParameterTypeOrderedMap) Type {
+	if t.MemberType == nil {
+		// The type is not instantiated, there is nothing to resolve
+		return t
+	}
+
 	memberType := t.MemberType.Resolve(typeArguments)
 	if memberType == nil {
 		return nil
